@@ -13,7 +13,7 @@
    Step theorems: related states, same call => equal projected results (directories: name, mode, owner only)
    and related states again. *)
 From Avfs Require Import Base PathModel PathSpec PathProofs PathCleanProofs PathIterProofs MemFS MemFile World Posix
-  WalkBridge Inv InvPath InvConseq OrefaFS OrefaWorld OrefaLemmas OrefaInv OrefaSpec.
+  WalkBridge Inv InvPath InvConseq InvCheck OrefaFS OrefaWorld OrefaLemmas OrefaInv OrefaSpec.
 
 (* ---- walks on components ------------------------------------------------------------------------------ *)
 Fixpoint twalk (h : heap) (d : nat) (cs : list str) : option nat :=
@@ -624,3 +624,170 @@ Section Edit.
              rewrite <- E5 in Hps. rewrite twalk_app, Hpre in Hps. cbn [twalk] in Hps. rewrite El in Hps. discriminate.
   Qed.
 End Edit.
+
+(* ---- a new leaf under an existing directory: the states stay related -------------------------------------- *)
+Lemma orel_create (o o' : ofs) (s s' : fsys) (sv : sview) (ps : list str) (c : str) (p : nat) (px : onode)
+      (nd_o : onode) (nd_s : node) :
+  ohyps s sv -> orel o s sv -> gcs (ps ++ [c]) ->
+  twalk (f_heap s) (v_root (sv_view sv)) ps = Some p -> ofind o (rpath ps) = Some (p, px) ->
+  node_is_dir (f_heap s) p = true -> alookup str_eqb c (children (f_heap s) p) = None ->
+  nrel (Some nd_o) (Some nd_s) -> node_children nd_s = [] ->
+  o_os o' = o_os o -> o_user o' = o_user o -> o_umask o' = o_umask o ->
+  o_index o' = aset str_eqb (rpath (ps ++ [c])) (length (o_heap o)) (o_index o) ->
+  o_heap o' = o_add_child (o_heap o ++ [nd_o]) p c (length (o_heap o)) ->
+  f_heap s' = add_child (f_heap s ++ [nd_s]) p c (length (f_heap s)) ->
+  orel o' s' sv.
+Proof.
+  intros Hh Hr Hg Hw Hfp Hpd Hcn Hnn Hleaf Eos Eus Eum Eidx Eheap Esh.
+  pose proof (or_len _ _ _ Hr) as Hlen. set (h := f_heap s) in *.
+  apply ofind_some in Hfp. destruct Hfp as [Hip Hop].
+  assert (Hplt : p < length h). { rewrite node_is_dir_get in Hpd. destruct (get h p) eqn:E; [|discriminate]. eapply get_lt; eauto. }
+  pose proof (or_node _ _ _ Hr p) as Hnp. rewrite Hop in Hnp.
+  assert (Hgp : exists chp m, get h p = Some (NDir chp m)) by (apply is_dir_get; exact Hpd).
+  destruct Hgp as (chp & mp & Hgp). fold h in Hnp. rewrite Hgp in Hnp. cbn [nrel] in Hnp.
+  destruct Hnp as (y & [= <-] & Hpxd & Hpxc & Hpxm).
+  assert (Hgp' : get (h ++ [nd_s]) p = Some (NDir chp mp)) by (rewrite get_app_old; assumption).
+  assert (Hheap' : f_heap s' = upd (h ++ [nd_s]) p (NDir (aset str_eqb c (length h) chp) mp)).
+  { rewrite Esh. unfold add_child. fold h. rewrite Hgp'. reflexivity. }
+  assert (Hrootv : v_root (sv_view sv) < length h).
+  { pose proof (oh_root _ _ Hh) as H. rewrite node_is_dir_get in H. fold h in H. destruct (get h (v_root (sv_view sv))) eqn:E; [|discriminate]. eapply get_lt; eauto. }
+  assert (Hch : forall d c1, d < length h ->
+            alookup str_eqb c1 (children (f_heap s') d) = if Nat.eqb d p && str_eqb c1 c then Some (length h) else alookup str_eqb c1 (children h d)).
+  { intros d c1 Hd. rewrite Hheap', children_upd. rewrite app_length. cbn [length].
+    destruct (Nat.eqb_spec d p) as [->|Hdp]; cbn [andb].
+    - destruct (Nat.ltb_spec p (length h + 1)); [|lia]. cbn [node_children]. rewrite (children_get h p), Hgp. cbn [node_children].
+      destruct (str_eqb_spec c1 c) as [->|Hc1]; [apply al_aset_eq|apply al_aset_neq; exact Hc1].
+    - rewrite children_app. destruct (Nat.ltb_spec d (length h)); [reflexivity|lia]. }
+  assert (Hnl : forall i c2, Some (length h) = Some i -> alookup str_eqb c2 (children (f_heap s') i) = None).
+  { intros i c2 [= <-]. rewrite Hheap', children_upd. destruct (Nat.eqb_spec (length h) p) as [E|_]; [lia|].
+    rewrite children_app. destruct (Nat.ltb_spec (length h) (length h)); [lia|]. rewrite Nat.eqb_refl, Hleaf. reflexivity. }
+  assert (Hgk : gcs ps /\ good_comp c) by (apply gcs_snoc_inv; exact Hg). destruct Hgk as [Hgps Hgc].
+  constructor.
+  - rewrite Eos. apply (or_os _ _ _ Hr).
+  - rewrite Eus. apply (or_user _ _ _ Hr).
+  - rewrite Eum. apply (or_umask _ _ _ Hr).
+  - rewrite Eidx. unfold ikey. rewrite al_aset_neq; [apply (or_slash _ _ _ Hr)|].
+    intros E. symmetry in E. revert E. apply rpath_not_slash. apply gcs_ok. exact Hg.
+  - intros cs' Hcs'. rewrite Eidx.
+    rewrite (twalk_edit h (f_heap s') (v_root (sv_view sv)) p ps c (Some (length h)) (oh_inv _ _ Hh) Hrootv Hw Hpd Hch Hnl cs' [] _ eq_refl)
+      by (apply strip_none; intros t E; destruct ps; discriminate).
+    cbn [app]. destruct (strip (ps ++ [c]) cs') as [[|y l]|] eqn:Es.
+    + apply strip_some in Es. rewrite app_nil_r in Es. subst cs'. unfold ikey. rewrite Hlen. apply al_aset_eq.
+    + apply strip_some in Es. subst cs'. unfold ikey. rewrite al_aset_neq.
+      * fold (ikey (o_index o) (rpath ((ps ++ [c]) ++ y :: l))). rewrite (or_index _ _ _ Hr _ Hcs'). fold h.
+        rewrite twalk_app, twalk_snoc, Hw, Hcn. reflexivity.
+      * intros E. apply rpath_inj in E; [|apply gcs_ok; exact Hcs'|apply gcs_ok; exact Hg].
+        apply (f_equal (@length str)) in E. rewrite !app_length in E. cbn [length] in E. lia.
+    + unfold ikey. rewrite al_aset_neq.
+      * apply (or_index _ _ _ Hr _ Hcs').
+      * intros E. apply rpath_inj in E; [|apply gcs_ok; exact Hcs'|apply gcs_ok; exact Hg]. subst cs'.
+        rewrite <- (app_nil_r (ps ++ [c])) in Es at 2. rewrite strip_app in Es. discriminate.
+  - rewrite Eheap, Hheap'. unfold o_add_child. rewrite (oget_app_some _ nd_o _ _ Hop). rewrite oupd_length, upd_length, !app_length, Hlen. reflexivity.
+  - intros i. rewrite Eheap, Hheap'. unfold o_add_child. rewrite (oget_app_some _ nd_o _ _ Hop).
+    rewrite (oget_oupd _ _ _ _ _ (oget_app_some _ nd_o _ _ Hop)). rewrite get_upd, app_length. cbn [length].
+    destruct (Nat.eqb_spec p i) as [<-|Hpi].
+    + rewrite Nat.eqb_refl. destruct (Nat.ltb_spec p (length h + 1)); [|lia]. cbn [nrel].
+      eexists. split; [reflexivity|]. cbn [on_with_ch on_ch on_meta]. unfold on_dir. cbn [on_with_ch on_meta].
+      split; [exact Hpxd|]. split; [rewrite Hpxc, Hlen; reflexivity|exact Hpxm].
+    + destruct (Nat.eqb_spec i p) as [E|_]; [congruence|]. rewrite get_app.
+      destruct (Nat.ltb_spec i (length h)) as [Hil|Hig].
+      * rewrite oget_app_old by (rewrite Hlen; exact Hil). apply (or_node _ _ _ Hr i).
+      * destruct (Nat.eqb_spec i (length h)) as [->|Hne].
+        -- rewrite <- Hlen. rewrite oget_app_new. exact Hnn.
+        -- cbn [nrel]. unfold oget. apply nth_error_None. rewrite app_length. cbn [length]. lia.
+Qed.
+
+Lemma o_mkdir_abs (o : ofs) (cs : list str) (perm : N) :
+  o_mkdir o (abs_path cs) perm =
+    match osplit (o_os o) (oabs o (abs_path cs)) with
+    | None => (o, RPanic)
+    | Some (dir_name, file_name) =>
+        match ofind o (oabs o (abs_path cs)) with
+        | Some _ => (o, RFail EFileExists)
+        | None =>
+            match ofind o dir_name with
+            | None => (o, o_enf o (oabs o (abs_path cs)) (RFail ENoSuchDir))
+            | Some (pi, pn) =>
+                if negb (on_dir pn) then (o, RFail ENotADirectory)
+                else (fst (o_create_dir o pi (oabs o (abs_path cs)) file_name perm), ROk)
+            end
+        end
+    end.
+Proof. reflexivity. Qed.
+
+(* ---- Mkdir ---------------------------------------------------------------------------------------------------- *)
+Theorem orefa_step_mkdir (o : ofs) (s : fsys) (sv : sview) (ps : list str) (c : str) (perm : N) :
+  ohyps s sv -> orel o s sv -> gcs (ps ++ [c]) -> length (ps ++ [c]) < WALK_FUEL ->
+  proj_res Linux (snd (o_mkdir o (abs_path (ps ++ [c])) perm)) = snd (k_mkdir s sv (abs_path (ps ++ [c])) perm)
+  /\ orel (fst (o_mkdir o (abs_path (ps ++ [c])) perm)) (fst (k_mkdir s sv (abs_path (ps ++ [c])) perm)) sv.
+Proof.
+  intros Hh Hr Hg Hl. pose proof Hg as Hg'. apply gcs_snoc_inv in Hg'. destruct Hg' as [Hps Hc].
+  rewrite o_mkdir_abs. unfold k_mkdir.
+  rewrite (oabs_abs o s sv Hr _ Hg), (or_os _ _ _ Hr).
+  rewrite (klookup_par s sv Hh false ps c Hg Hl), (tpar_spec (f_heap s) ps (v_root (sv_view sv)) c).
+  rewrite (@abs_path_rpath (ps ++ [c])) by (destruct ps; discriminate).
+  rewrite (split_abs_rpath ps c) by (apply comp_ok_nosl; apply good_comp_ok'; exact Hc).
+  destruct (resolve4 o s sv Hh Hr ps c Hg) as [p px i x Ew Hp Hnp Hd El Hx Hnx|p px Ew Hp Hnp Hd El Hx|p px Ew Hp Hnp Hd Hx|Ew Hp Hx];
+    rewrite Hx, Ew.
+  - rewrite Hd, El. cbn [snd fst]. split; [reflexivity|exact Hr].
+  - rewrite Hp, Hd, El, (nrel_dir s sv Hh px p Hnp), Hd. cbn [negb].
+    rewrite (kperm_dir_admin (f_heap s) (v_user (sv_view sv)) (oh_admin _ _ Hh) p 3 Hd). cbn [negb snd fst].
+    split; [reflexivity|].
+    unfold o_create_dir, o_create_node, alloc_child. cbn [fst].
+    apply ofind_some in Hp. destruct Hp as [Hip Hop]. rewrite Hop.
+    eapply (orel_create o _ s _ sv ps c p px); try eassumption; try reflexivity.
+    + apply ofind_some. auto.
+    + (* the two new nodes are related *)
+      cbn [nrel]. eexists. split; [reflexivity|]. unfold on_dir. cbn [on_meta on_ch m_mode].
+      rewrite (nrel_meta s sv Hh px p Hnp). rewrite (or_os _ _ _ Hr), (or_umask _ _ _ Hr), (or_user _ _ _ Hr).
+      rewrite dir_mode_is_dir, andb_true_r. unfold kmeta, new_owner_gid, is_setgid. cbn [andb dir_mode].
+      split; [|split; [reflexivity|]].
+      * destruct (has (m_mode (meta_of (f_heap s) p)) MODE_SETGID); [rewrite <- N.lor_assoc|]; apply dir_mode_is_dir.
+      * f_equal. destruct (has (m_mode (meta_of (f_heap s) p)) MODE_SETGID); [rewrite N.lor_assoc|]; reflexivity.
+    + reflexivity.
+  - rewrite Hp, Hd, (nrel_dir s sv Hh px p Hnp), Hd. cbn [negb snd fst]. split; [reflexivity|exact Hr].
+  - rewrite Hp. cbn [snd fst]. split; [|exact Hr].
+    rewrite (enf_rel o s sv Hh Hr _ ps c Hg), Ew.
+    destruct (tfail_cases s ps (v_root (sv_view sv))) as [E|E]; rewrite E; reflexivity.
+Qed.
+
+(* ---- a boolean test of the hypotheses (for the examples) ----------------------------------------------------- *)
+Definition good_compb (c : str) : bool :=
+  negb (match c with [] => true | _ => false end) && forallb (fun x => negb (N.eqb x SLASH)) c
+  && negb (str_eqb c [DOT]) && negb (str_eqb c [DOT; DOT]).
+
+Lemma good_compb_sound c : good_compb c = true -> good_comp c.
+Proof.
+  unfold good_compb. rewrite !andb_true_iff. intros (((H1 & H2) & H3) & H4). repeat split.
+  - intros ->. discriminate.
+  - intros x Hx. rewrite forallb_forall in H2. specialize (H2 x Hx). apply negb_true_iff in H2. apply N.eqb_neq. exact H2.
+  - apply negb_true_iff in H3. apply str_eqb_neq. exact H3.
+  - apply negb_true_iff in H4. apply str_eqb_neq. exact H4.
+Qed.
+
+Definition node_okb (n : node) : bool :=
+  match n with NSym _ _ => false | _ => true end
+  && forallb (fun e => good_compb (fst e)) (node_children n)
+  && Bool.eqb (has (m_mode (node_meta n)) MODE_DIR) (node_dirb n).
+
+Definition ohyps_check (s : fsys) (sv : sview) : bool :=
+  ostype_eqb (v_os (sv_view sv)) Linux && us_admin (v_user (sv_view sv)) && inv_heap_check (f_heap s)
+  && node_is_dir (f_heap s) (v_root (sv_view sv)) && forallb node_okb (f_heap s).
+
+Lemma ohyps_check_sound s sv : ohyps_check s sv = true -> ohyps s sv.
+Proof.
+  unfold ohyps_check. rewrite !andb_true_iff. intros ((((H1 & H2) & H3) & H4) & H5).
+  assert (Hn : forall i nd, get (f_heap s) i = Some nd -> node_okb nd = true).
+  { intros i nd Hg. rewrite forallb_forall in H5. apply H5. unfold get in Hg. eapply nth_error_In. exact Hg. }
+  constructor.
+  - destruct (v_os (sv_view sv)); [reflexivity|discriminate].
+  - exact H2.
+  - apply inv_heap_check_sound. exact H3.
+  - exact H4.
+  - intros i t m Hg. specialize (Hn i _ Hg). discriminate.
+  - intros d n c He. apply edge_get in He. destruct He as (ch & m & Hg & Hin). specialize (Hn d _ Hg).
+    unfold node_okb in Hn. rewrite !andb_true_iff in Hn. destruct Hn as ((_ & Hn) & _). cbn [node_children] in Hn.
+    rewrite forallb_forall in Hn. apply good_compb_sound. apply (Hn (n, c) Hin).
+  - intros i nd Hg. specialize (Hn i nd Hg). unfold node_okb in Hn. rewrite !andb_true_iff in Hn. destruct Hn as (_ & Hn).
+    apply Bool.eqb_prop. exact Hn.
+Qed.
